@@ -5,6 +5,10 @@ table, both sensor types) -> Gen/C15Gen.v; theorems in Props/C15.v against the h
 Peano-Baker series of Spec/PeanoBaker.v.  The list model of the table assembly
 (Spec.PeanoBaker.rows) is tied to the implementation by exact comparison of labels, dt and
 provenance (which samples each row depends on) for random n and irregular dyadic stamps.
+Every table is also run in permuted column layouts with extra unrelated columns (LAYOUTS): the channels
+are read by LABEL, so the results must be bit-identical to the canonical layout's; the accuracy statements
+are evaluated on tables in those layouts (cycling).  Line coverage of compute_increments_from_imu during
+the statement runs is measured (tools/linecov.py) and an unreached line breaks the correspondence.
 
 Numerical support / falsifier on the implementation (independent oracle: the exact attitude
 matrix C(T) and u(T) = int C f by composed Taylor-series steps (order 20, <= 20 ms each) of the
@@ -171,9 +175,52 @@ def rotvec(C):
 
 
 # ---------------------------------------------------------------------------
+# column layouts of a validly labelled Imu table: the function must read the channels BY LABEL, so the
+# order of the six labelled columns and any unrelated extra columns (leading / trailing) must not matter
+
+CANON = ['gyro_x', 'gyro_y', 'gyro_z', 'accel_x', 'accel_y', 'accel_z']
+LAYOUTS = [
+    CANON,
+    ['accel_x', 'accel_y', 'accel_z', 'gyro_x', 'gyro_y', 'gyro_z'],                          # accel first
+    ['temperature'] + CANON,                                                                   # leading extra
+    CANON + ['odometer', 'flag'],                                                              # trailing extras
+    ['temperature', 'accel_z', 'gyro_y', 'accel_x', 'gyro_x', 'aux', 'gyro_z', 'accel_y', 'flag'],  # all mixed
+    ['gyro_z', 'gyro_y', 'gyro_x', 'accel_z', 'accel_y', 'accel_x'],                          # reversed axes
+]
+
+
+def apply_layout(df, layout):
+    """the same labelled data with the columns in the order `layout`; names that are not IMU channels
+    become unrelated float columns (deterministic values of IMU-like magnitude)."""
+    if layout is None or list(layout) == CANON:
+        return df
+    import pandas as pd
+    cols = {}
+    for k, name in enumerate(layout):
+        cols[name] = df[name].values if name in CANON else 20.0 + 0.25 * k + 0.125 * np.arange(len(df))
+    return pd.DataFrame(cols, index=df.index, columns=list(layout))
+
+
+def layout_identity(imu, typ):
+    """results for every layout of LAYOUTS must be bit-identical to the canonical layout's.
+    Returns a failure string or None."""
+    from pyins.strapdown import compute_increments_from_imu
+    ref = compute_increments_from_imu(imu, typ)
+    for li, layout in enumerate(LAYOUTS[1:], 1):
+        out = compute_increments_from_imu(apply_layout(imu, layout), typ)
+        if list(out.columns) != list(ref.columns) or out.shape != ref.shape or \
+                not np.array_equal(np.asarray(out.index, float), np.asarray(ref.index, float)) or \
+                not np.array_equal(out.values, ref.values):
+            dif = float(np.abs(out.values - ref.values).max()) if out.shape == ref.shape and out.size else None
+            return (f"result for column layout {layout} differs from the result for the canonical layout "
+                    f"(max abs difference {dif})")
+    return None
+
+
+# ---------------------------------------------------------------------------
 # running the implementation
 
-def make_table(om, f, stamps, typ):
+def make_table(om, f, stamps, typ, layout=None):
     import pandas as pd
     from pyins.util import GYRO_COLS, ACCEL_COLS
     st = np.array(stamps, float)
@@ -184,13 +231,13 @@ def make_table(om, f, stamps, typ):
         x0 = st[0] - (st[1] - st[0])
         ends = np.hstack([[x0], st])
         data = [np.hstack([om.integ(x, y), f.integ(x, y)]) for x, y in zip(ends[:-1], ends[1:])]
-    return pd.DataFrame(np.array(data), index=st, columns=GYRO_COLS + ACCEL_COLS)
+    return apply_layout(pd.DataFrame(np.array(data), index=st, columns=GYRO_COLS + ACCEL_COLS), layout)
 
 
-def row_errors(om, f, stamps, typ):
+def row_errors(om, f, stamps, typ, layout=None):
     """per result row: |theta - rotvec(C)|, |dv - u|, |dv - u + a x (a x d) T^3/6|, theta_code - theta_exact"""
     from pyins.strapdown import compute_increments_from_imu
-    inc = compute_increments_from_imu(make_table(om, f, stamps, typ), typ)
+    inc = compute_increments_from_imu(make_table(om, f, stamps, typ, layout), typ)
     th = inc[COLS_TH].values
     dv = inc[COLS_DV].values
     out = []
@@ -204,8 +251,8 @@ def row_errors(om, f, stamps, typ):
     return out
 
 
-def window_max(om, f, stamps, typ):
-    e = row_errors(om, f, stamps, typ)
+def window_max(om, f, stamps, typ, layout=None):
+    e = row_errors(om, f, stamps, typ, layout)
     return np.array([max(x[k] for x in e) for k in range(3)])
 
 
@@ -219,7 +266,7 @@ def uniform_stamps(t_start, T, span=SPAN):
     return [t_start + T * k for k in range(n + 1)]
 
 
-def probe_rows(om, f, typ, probes, t_start, T):
+def probe_rows(om, f, typ, probes, t_start, T, layout=None):
     """irregular stamps: each probe (x, c, q) is the 3-sample table with stamps tau - q T, tau, tau + c T,
     tau = t_start + x SPAN (previous interval q T, own interval c T; q != c).  The last row of each table
     is examined.  The same interval START times and shapes are used at every scale T, so that the error
@@ -227,11 +274,11 @@ def probe_rows(om, f, typ, probes, t_start, T):
     out = []
     for x, c, q in probes:
         tau = t_start + x * SPAN
-        out.append(row_errors(om, f, [tau - q * T, tau, tau + c * T], typ)[-1])
+        out.append(row_errors(om, f, [tau - q * T, tau, tau + c * T], typ, layout)[-1])
     return out
 
 
-def slope_case(om, f, typ, pattern, t_start):
+def slope_case(om, f, typ, pattern, t_start, layout=None):
     """pattern None: uniform stamps T in TS over a fixed window of SPAN seconds (long tables); else a list
     of probes (x, c, q) (see probe_rows) evaluated at the scales T in TS.
     Returns (errors array [len(TS) x 3]: max over rows, slopes (theta, dv, dv_corrected) from 20 to 5 ms,
@@ -239,9 +286,9 @@ def slope_case(om, f, typ, pattern, t_start):
     E = []
     for T in TS:
         if pattern is None:
-            E.append(window_max(om, f, uniform_stamps(t_start, T), typ))
+            E.append(window_max(om, f, uniform_stamps(t_start, T), typ, layout))
         else:
-            e = probe_rows(om, f, typ, pattern, t_start, T)
+            e = probe_rows(om, f, typ, pattern, t_start, T, layout)
             E.append(np.array([max(x[k] for x in e) for k in range(3)]))
     E = np.array(E)
     sl = np.zeros(3)
@@ -281,12 +328,12 @@ def judge(kind, E, sl, skip_theta=False):
     return bad
 
 
-def small_T_case(om, f, typ, t_start, kind, E10):
+def small_T_case(om, f, typ, t_start, kind, E10, layout=None):
     """1, 2 ms: error bounded by the extrapolation of the 5 ms error (E10) with the documented order"""
     bad = []
     thr = thresholds(kind)
     for T in (0.002, 0.001):
-        e = window_max(om, f, uniform_stamps(t_start, T, span=32 * T), typ)
+        e = window_max(om, f, uniform_stamps(t_start, T, span=32 * T), typ, layout)
         for k, nm in enumerate(('theta', 'dv')):
             lim = E10[k] * (T / 0.005) ** thr[k] * 4 + FLOOR
             if e[k] > lim:
@@ -305,10 +352,10 @@ def irregular_pattern(rng, m=10):
     return out
 
 
-def f2_measure(om, f, pattern, t_start, T):
+def f2_measure(om, f, pattern, t_start, T, layout=None):
     """increment type, linear signals, unequal adjacent intervals: measured theta discrepancy vs the
     formula of theorem C15_incr_unequal_discrepancy: (a x b) t2 (t1 - t2)(t1 + 2 t2)/24."""
-    e = probe_rows(om, f, 'increment', pattern, t_start, T)
+    e = probe_rows(om, f, 'increment', pattern, t_start, T, layout)
     worst = (0.0, None)
     resid = 0.0
     for (x, c, q), ei in zip(pattern, e):
@@ -347,6 +394,8 @@ def numeric_statements(r, trials, seed_shift=0, small_T=True):
                                         float(np.abs(C1.T @ C1 - np.eye(3)).max()))
     f2_worst = (0.0, None)
     f2_resid = 0.0
+    lc = 0                      # running case counter: cycles deterministically through LAYOUTS
+    stats['layouts'] = dict(corpus=LAYOUTS, slope_cases_per_layout=[0] * len(LAYOUTS), identity_tables=0)
     for kind in ('lin', 'sin'):
         for typ in ('rate', 'increment'):
             for stamps_kind in ('uniform', 'irregular'):
@@ -359,7 +408,18 @@ def numeric_statements(r, trials, seed_shift=0, small_T=True):
                     r.case(('slope', kind, typ, stamps_kind, trial),
                            sample=dict(kind=kind, typ=typ, stamps=stamps_kind, om=om.to_json(), f=f.to_json()))
                     unequal_incr = (typ == 'increment' and stamps_kind == 'irregular')
-                    E, sl = slope_case(om, f, typ, pattern, t_start)
+                    # the accuracy statements are checked on a validly labelled table in one of the column
+                    # layouts (cycling), and every layout must give bit-identical results on one table
+                    layout = LAYOUTS[lc % len(LAYOUTS)]
+                    stats['layouts']['slope_cases_per_layout'][lc % len(LAYOUTS)] += 1
+                    lc += 1
+                    lbad = layout_identity(make_table(om, f, uniform_stamps(t_start, 0.04), typ), typ)
+                    stats['layouts']['identity_tables'] += 1
+                    if lbad:
+                        fails.append((f"{kind} signals, {typ} type: {lbad}",
+                                      dict(kind='layout', sig=kind, typ=typ, om=om.to_json(), f=f.to_json(),
+                                           t_start=t_start)))
+                    E, sl = slope_case(om, f, typ, pattern, t_start, layout)
                     # increment type x unequal adjacent intervals: theta carries the cubic term of
                     # theorem C15_incr_unequal_discrepancy (candidate finding F2) - measured below,
                     # not judged against the "exact through the cubic term" threshold here
@@ -367,19 +427,19 @@ def numeric_statements(r, trials, seed_shift=0, small_T=True):
                     if unequal_incr and kind == 'lin':
                         # dv carries the same cubic factor times (a x e + d x b): judge dv at order 3 only
                         bad = [b for b in bad if not b.startswith('dv+gap')]
-                        w, _ = f2_measure(om, f, pattern, t_start, 0.16)
-                        w4, rs4 = f2_measure(om, f, pattern, t_start, 0.02)
+                        w, _ = f2_measure(om, f, pattern, t_start, 0.16, layout)
+                        w4, rs4 = f2_measure(om, f, pattern, t_start, 0.02, layout)
                         f2_resid = max(f2_resid, rs4 / max(w4[0], 1e-300))
                         if w[0] > f2_worst[0]:
                             f2_worst = (w[0], dict(w[1], om=om.to_json(), f=f.to_json(), pattern=pattern,
-                                                   t_start=t_start, theta_slope=float(sl[0])))
+                                                   t_start=t_start, theta_slope=float(sl[0]), layout=layout))
                     if small_T and stamps_kind == 'uniform' and trial == 0:
-                        bad += small_T_case(om, f, typ, t_start, kind, E[-1])
+                        bad += small_T_case(om, f, typ, t_start, kind, E[-1], layout)
                     sls.append([float(x) for x in sl])
                     for b in bad:
-                        fails.append((f"{kind} signals, {typ} type, {stamps_kind} stamps: {b}",
+                        fails.append((f"{kind} signals, {typ} type, {stamps_kind} stamps, columns {layout}: {b}",
                                       dict(kind='slope', sig=kind, typ=typ, om=om.to_json(), f=f.to_json(),
-                                           pattern=pattern, t_start=t_start)))
+                                           pattern=pattern, t_start=t_start, layout=layout)))
                 stats['slopes'][f"{kind}/{typ}/{stamps_kind}"] = dict(
                     min=[min(s[k] for s in sls) for k in range(3)], cases=len(sls),
                     columns=['theta', 'dv', 'dv+gap'])
@@ -427,6 +487,9 @@ def rows_check(stamps64, data, typ, provenance=True):
         if not np.array_equal(out['dt'].values, st[1:] - st[:-1]):
             return f"dt column {out['dt'].values.tolist()} is not the successive stamp differences", None
     vals = out.values
+    lbad = layout_identity(imu, typ)
+    if lbad:
+        return lbad, None
     canon = []
     for i in range(n - 1):
         one = compute_increments_from_imu(imu.iloc[i:i + 2], typ)
@@ -545,9 +608,21 @@ def check(r):
     r.generate(['C15Gen'])
     r.prove('Props/C15.v')
     quick = r.tier == 'quick'
-    fails, stats = rows_statements(r, 150 if quick else 3000)
+    import linecov
+    from pyins import strapdown
+    with linecov.LineCoverage({'compute_increments_from_imu': strapdown.compute_increments_from_imu}) as cov:
+        fails, stats = rows_statements(r, 150 if quick else 3000)
+        fails2, nstats = numeric_statements(r, 4 if quick else 40)
     r.coverage['rows'] = stats
-    fails2, nstats = numeric_statements(r, 4 if quick else 40)
+    # lines that may stay unreached, each with its reason:
+    #   'raise ValueError' - argument validation for a sensor_type other than 'rate' / 'increment': outside the
+    #                        property's quantifier (both sensor types)
+    #   'assert False'     - the `else` after the two sensor types, unreachable after that validation
+    summ, missing = cov.report(allow=('raise ValueError', 'assert False'))
+    r.coverage['code_lines'] = summ
+    r.log(f"line coverage: {summ}")
+    if missing:
+        r.broken('correspondence', 'code line not exercised', missing)
     r.coverage['numeric_support'] = nstats
     r.coverage['distribution'] = dict(rows=stats['sizes'], slope_cases={k: v['cases'] for k, v in nstats['slopes'].items()})
     if nstats['oracle_vs_dop853'] > 1e-8 or nstats['oracle_semigroup'] > 1e-13:
@@ -569,7 +644,8 @@ def check(r):
         else:
             r.notes.append(note)
     if not quick:
-        r.hygiene()
+        r.hygiene('Props/C15.v')
+        r.coqchk('Props/C15.v')
 
 
 def falsify(r):
@@ -593,7 +669,8 @@ def replay(obj):
         return 1 if bad else 0
     if rep.get('kind') == 'slope':
         om, f = sig_from_json(rep['om']), sig_from_json(rep['f'])
-        E, sl = slope_case(om, f, rep['typ'], rep['pattern'], rep['t_start'])
+        layout = rep.get('layout')
+        E, sl = slope_case(om, f, rep['typ'], rep['pattern'], rep['t_start'], layout)
         print("max errors per interval scale (theta, dv, dv+gap):")
         print(E)
         print("slopes (theta, dv, dv+gap):", sl, "thresholds:", thresholds(rep['sig']))
@@ -602,13 +679,18 @@ def replay(obj):
         if unequal:
             bad = [b for b in bad if not b.startswith('dv+gap')]
         if rep['pattern'] is None:
-            bad += small_T_case(om, f, rep['typ'], rep['t_start'], rep['sig'], E[-1])
+            bad += small_T_case(om, f, rep['typ'], rep['t_start'], rep['sig'], E[-1], layout)
         for b in bad:
             print("FAILS:", b)
         return 1 if bad else 0
+    if rep.get('kind') == 'layout':
+        om, f = sig_from_json(rep['om']), sig_from_json(rep['f'])
+        bad = layout_identity(make_table(om, f, uniform_stamps(rep['t_start'], 0.04), rep['typ']), rep['typ'])
+        print("implementation:", "FAILS: " + bad if bad else "ok, all column layouts give bit-identical results")
+        return 1 if bad else 0
     if rep.get('kind') == 'f2':
         om, f = sig_from_json(rep['om']), sig_from_json(rep['f'])
-        w, rs = f2_measure(om, f, rep['pattern'], rep['t_start'], 0.16)
+        w, rs = f2_measure(om, f, rep['pattern'], rep['t_start'], 0.16, rep.get('layout'))
         print("worst theta discrepancy (rad):", w[0], w[1], "residual vs theorem:", rs)
         return 1 if w[0] > 1e-9 else 0
     print("unknown replay kind")
